@@ -376,6 +376,19 @@ func (c *FCtx) checkReturn(f Flow) {
 			f.st.assume(t) // proved above: later exit clauses and the ensures clauses may use it (cut point)
 		}
 	}
+	// `return k assert E`: the k-th return statement (source order) is reached only when E holds (E may name locals)
+	if rs, ok := f.node.(*ast.ReturnStmt); ok && c.fi != nil && len(con.Returns) > 0 {
+		ord := c.fi.RetOrd[rs]
+		for k, cl := range con.Returns[ord] {
+			if !cl.visible(c.prop) {
+				continue
+			}
+			renv := c.bodyEnv(f.st, rs.Pos())
+			t := renv.evalBool(cl.E)
+			c.oblige(f.st, "assert", fmt.Sprintf("return[%d]/assert[%d] %s", ord, k+1, cl.Src), t, f.pos)
+			f.st.assume(t)
+		}
+	}
 	for k, en := range con.Ensures {
 		if !en.visible(c.prop) {
 			continue
